@@ -156,6 +156,11 @@ class Template:
 
 def declare_inputs(p, t, gap_bits, k_bits):
     consts, markers = {}, {}
+    syms = sorted(set(re.findall(r'@(N\d+)@', t.text)))
+    for n in syms:
+        markers[n] = p.int(n, lo=1, hi=16)        # symbolic alignment
+    if syms:
+        gap_bits = min(gap_bits, 8)
     for c in t.consts:
         consts[c] = p.int(c, lo=0, hi=(1 << 32) - 1) if c == 'BASE' else p.int(c, k_bits)
     for g in t.gaps:
@@ -165,6 +170,7 @@ def declare_inputs(p, t, gap_bits, k_bits):
 
 def explore(pl, t, compress, gap_bits, k_bits, prof, res, max_paths):
     x = core.Explorer(timeout_ms=120000, max_paths=max_paths)
+    x.allow_symmod = '@N' in t.text
     out = []
 
     def fn(p):
@@ -323,11 +329,11 @@ def obligations(prop, t, p, val, compress):
                     obs.append(('line %d include_bytes contributes the file' % i,
                                 z3.And(z3.BoolVal(ok), bool_z3(e['length'] == G))))
             elif l['kind'] == 'align':
-                N = l['n']
+                N = l['n'] if isinstance(l['n'], int) else p.notes['markers'][l['n']]
                 off = walk.offset_of_line(i)
                 pad = e['length'] if e else 0
                 zero = e is None or all(s.kind == 'zeros' or (s.kind == 'lit' and not any(s.data)) for s in e['segs'])
-                obs.append(('line %d align %d pads minimally with zeros' % (i, N),
+                obs.append(('line %d align %s pads minimally with zeros' % (i, l['n']),
                             z3.And(z3.BoolVal(bool(zero)), bool_z3(And(pad >= 0, pad < N, ((off + pad) % N) == 0)))))
     return obs
 
@@ -461,8 +467,9 @@ def concrete_recheck(prop, pl, t, compress, p, mdl, oname):
             if l['kind'] == 'align':
                 off = walk.offset_of_line(i)
                 data = b''.join(d for n, d in chunks if n == i)
-                if not (0 <= ln < l['n'] and (off + ln) % l['n'] == 0) or any(data):
-                    probs.append('line %d: align %d at offset %d padded %d bytes %s' % (i, l['n'], off, ln, data[:8].hex()))
+                nn = l['n'] if isinstance(l['n'], int) else FakePath.notes['markers'][l['n']]
+                if not (0 <= ln < nn and (off + ln) % nn == 0) or any(data):
+                    probs.append('line %d: align %d at offset %d padded %d bytes %s' % (i, nn, off, ln, data[:8].hex()))
         return (not probs), '; '.join(probs)
     obs = obligations(prop, t, FakePath, val, compress)
     bad = []
